@@ -64,6 +64,7 @@ struct c11lv_ghost {
 	int construct_calls; const void *construct_payload; const KSI_TlvTemplate *construct_tmpl; unsigned new_tag;
 } g_lv;
 static struct KSI_HashChainLink_st g_lv_link; static struct KSI_Integer_st g_lv_oldint; static struct KSI_TLV_st g_lv_el;
+static int g_lv_cmp;      /* 0: the TLV element fetched last has not been compared, 1: its parsed chain compared EQUAL to the first chain, 2: compared different */
 static KSI_LIST(KSI_TLV) g_lv_tlvlist;
 
 /* ---------------- KSI_SignatureBuilder_appendAggregationChain / createSignatureWithAggregationChain ---------------- */
